@@ -25,7 +25,16 @@ NUM_PRIMS = st.one_of(
 
 INEXACT_FLOATS = st.sampled_from([0.1, 0.2, 0.3, 0.7, 1.1, 1e16, -1e16, 1.0, 2.5, 1e-9]).map(lambda x: ["f", x])
 
+def GR(*whats):
+    return st.sampled_from(whats).map(lambda w: ("GR", w))
+
+
 PROFILES = {
+    "grumpy-bool": st.one_of(K, K, K, TRUTHY_PRIMS, GR("bool")),
+    "grumpy-order": st.one_of(K, K, K, K, GR("lt")),
+    "grumpy-eq": st.one_of(K, K, K, GR("eq")),
+    "grumpy-hash": st.one_of(K, K, K, GR("hash", "eq")),
+    "grumpy-add": st.one_of(K, K, K, GR("add")),
     "inexact": st.one_of(INEXACT_FLOATS, INEXACT_FLOATS, st.integers(-2, 5).map(lambda n: ["i", n])),
     "item": K,
     "truthy": st.one_of(K, TRUTHY_PRIMS),
@@ -53,10 +62,13 @@ class Uids:
         self.n = 0
 
     def fix(self, v):
-        """Replace ("K", key) placeholders by Items with fresh uids."""
+        """Replace ("K", key) placeholders by Items with fresh uids (("GR", what) by Grumpy items)."""
         if isinstance(v, tuple) and v and v[0] == "K":
             self.n += 1
             return ["I", v[1], self.n - 1]
+        if isinstance(v, tuple) and v and v[0] == "GR":
+            self.n += 1
+            return ["G", v[1], self.n - 1]
         if isinstance(v, (list, tuple)) and v and v[0] in ("t", "l"):
             return [v[0], [self.fix(x) for x in v[1]]]
         return list(v) if isinstance(v, tuple) else v
@@ -93,12 +105,12 @@ ISLICE_ARGS = st.one_of(
 
 
 @st.composite
-def base_case(draw, name, max_len=8, max_src=4, steps="full"):
+def base_case(draw, name, max_len=8, max_src=4, steps="full", min_len=0, min_src=0):
     """A fault-free case with default flavours (async generator sources, def callables)."""
     tool = TOOLS[name]
     uids = Uids()
     lo, hi = tool.nsrc
-    n = draw(st.integers(lo, min(hi, max_src)))
+    n = draw(st.integers(max(lo, min(min_src, hi)), min(hi, max_src)))
     profile = draw(st.sampled_from(tool.profiles))
     if profile == "tuples":
         arity = draw(st.integers(0, 3))
@@ -110,7 +122,7 @@ def base_case(draw, name, max_len=8, max_src=4, steps="full"):
         e = elem
         if name == "compress" and i == 1:
             e = PROFILES["truthy"]
-        items = [uids.fix(x) for x in draw(st.lists(e, max_size=max_len))]
+        items = [uids.fix(x) for x in draw(st.lists(e, min_size=min_len, max_size=max(max_len, min_len)))]
         srcs.append({"items": items, "fl": "agen", "susp": 0, "csusp": False, "fault": None})
     fns = {}
     for role, fnkind in tool.roles:
@@ -198,7 +210,7 @@ def base_case(draw, name, max_len=8, max_src=4, steps="full"):
         elif choice == 2:
             v["initial"] = ["n"]
     elif name in ("nlargest", "nsmallest"):
-        params["n"] = draw(st.integers(-1, longest + 2))
+        params["n"] = draw(st.integers(-1, longest + 2)) if longest < 10 else draw(st.integers(2, longest))
     if v:
         params["v"] = v
 
